@@ -277,7 +277,16 @@ pub fn format_blame_metadata(
         let field = match placeholder.placeholder {
             Some(Placeholder::Str("timestamp")) => {
                 Some(Cow::from(match &config.blame_timestamp_output_format {
-                    Some(time_format) => blame.time.format(time_format).to_string(),
+                    Some(time_format) => {
+                        // An invalid format string makes chrono's Display return an error, on
+                        // which `to_string()` would panic.
+                        use std::fmt::Write;
+                        let mut s = String::new();
+                        if write!(s, "{}", blame.time.format(time_format)).is_err() {
+                            s = blame.time.to_rfc3339();
+                        }
+                        s
+                    }
                     None => chrono_humanize::HumanTime::from(blame.time).to_string(),
                 }))
             }
